@@ -15,7 +15,7 @@
                  wrap), shorter ones by the int conversion
  Agreement with an independent JSON parser on accepted documents and values is not decided."""
 import os
-import ir, q, automaton, bytesets
+import ir, q, automaton, bytesets, bounded
 from ir import strip, strip_lv, const_val, T, pe, walk_expr, fn_exprs, AnalysisBroken
 from core import fwhere
 
@@ -254,19 +254,57 @@ def check_accept(ctx, prog):
     S = dict((c['n'], c['v']) for c in states['consts'])
     C = dict((c['n'], c['v']) for c in ctxs['consts'])
     g = q.Guarded(f)
-    # the assignment that produces a non-empty result
-    outs = [e for e in fn_exprs(f) if e.get('k') == 'call' and e.get('pq') == 'asl::Var::operator=' and strip(e['obj']).get('k') == 'var']
-    ok = False
-    detail = 'no guarded result assignment'
-    for e in outs:
-        conds = [c for c, pol, kind in g.of(e) if pol is True and kind == 'if']
-        parts = [strip(p) for c in conds for p in conj(c)]
-        has_root = any(p.get('k') == 'bin' and p.get('op') == '==' and const_val(p['y']) == C['ROOT'] and any(w.get('k') == 'call' and (w.get('pq') or '').endswith('::top') for w in walk_expr(p['x'])) for p in parts)
-        has_state = any(p.get('k') == 'bin' and p.get('op') == '==' and strip(p['x']).get('f') == '_state' and const_val(p['y']) == S['WAIT_VALUE'] for p in parts)
-        ok = has_root and has_state
-        detail = 'result assigned under: %s' % ' && '.join(pe(p) for p in parts)
-    ctx.check(ok, 'C06.accept', f['pq'], 'value:only a completed root value is returned', fwhere(f), detail,
-              'value() returns a result without requiring (context top == ROOT && state == WAIT_VALUE): a text cut before its final closing character is accepted (%s)' % detail)
+    # sites that produce a non-empty result: assignment to / initialisation of a local Var, `return <not a default Var or local>`
+    def peel(e):
+        e = strip(e)
+        while isinstance(e, dict) and e.get('k') == 'construct' and len(e.get('a', [])) == 1 and 'asl::Var' in (e.get('fn') or e.get('pq') or ''):
+            e = strip(e['a'][0])
+        return e
+    def is_var_t(t):
+        tt = T(f, t)
+        return tt.get('rec') == 'asl::Var' and not tt.get('ref') and not tt.get('ptr')
+    sites = []
+    for e in fn_exprs(f):
+        if e.get('k') == 'call' and e.get('pq') == 'asl::Var::operator=' and strip(e['obj']).get('k') == 'var':
+            sites.append((e, e['l']))
+    for s_ in ir.walk_stmts(f['body']):
+        if s_.get('k') == 'return' and s_.get('e') is not None:
+            r = peel(s_['e'])
+            if (r.get('k') == 'construct' and not r.get('a')) or (r.get('k') == 'var' and r.get('vk') == 'local'):
+                continue
+            sites.append((s_['e'], s_['l']))
+        if s_.get('k') == 'decl':
+            for v in s_['vars']:
+                if v.get('init') is not None and is_var_t(v['t']):
+                    r = peel(v['init'])
+                    if not (r.get('k') == 'construct' and not r.get('a')):
+                        sites.append((v['init'], s_['l']))
+    state_text = set(pe(w) for w in fn_exprs(f) if w.get('k') == 'mem' and w.get('f') == '_state')
+    top_text = set(pe(w) for w in fn_exprs(f) if w.get('k') == 'call' and (w.get('pq') or '').endswith('::top') and any(x.get('k') == 'mem' and x.get('f') == '_context' for x in walk_expr(w)))
+    if not sites:
+        ctx.undecided('C06.accept', f['pq'], 'value:only a completed root value is returned', fwhere(f), 'no result-producing site recognised in value()')
+    grid = sorted(set(S.values()) | set(C.values()))
+    for e, line in sites:
+        role = 'value:only a completed root value is returned'
+        if len(state_text) != 1 or len(top_text) != 1:
+            ctx.violation('C06.accept', f['pq'], role, fwhere(f, line), 'value() produces a result without consulting both the parser state and the top of the context stack (reads: %s; %s): '
+                          'a text cut before its final closing character is accepted' % (sorted(state_text), sorted(top_text)))
+            continue
+        st_t, top_t = list(state_text)[0], list(top_text)[0]
+        bt = {st_t: None, top_t: None}
+        st, info = bounded.decide(prog, f, g.of(e), lambda ev: ev.by_text[st_t] == S['WAIT_VALUE'] and ev.by_text[top_t] == C['ROOT'] and ev.by_text[st_t] != S['ERR'], {}, bt, grid)
+        ctx.evaluations += len(grid) ** 2
+        if st == 'undecided':
+            ctx.undecided('C06.accept', f['pq'], role, fwhere(f, line), info)
+        elif st == 'holds' and info:
+            ctx.ok('C06.accept', f['pq'], role, fwhere(f, line), 'over all (state, context top) pairs the guards of the result admit only (WAIT_VALUE, ROOT)')
+        elif st == 'holds':
+            ctx.undecided('C06.accept', f['pq'], role, fwhere(f, line), 'no (state, context) pair reaches the result')
+        else:
+            names = dict((v, k) for k, v in S.items())
+            cn = dict((v, k) for k, v in C.items())
+            ctx.violation('C06.accept', f['pq'], role, fwhere(f, line), 'value() returns a result in state %s with context top %s: a text cut before its final closing character (or after an error) is accepted'
+                          % (names.get(info[st_t], info[st_t]), cn.get(info[top_t], info[top_t])))
     d = fn1(prog, 'asl::XdlParser::decode', '(const char *)')
     ctx.analysed(d)
     calls = [e for e in fn_exprs(d) if e.get('k') == 'call' and e.get('pq') in ('asl::XdlParser::parse', 'asl::XdlParser::value')]
